@@ -86,8 +86,10 @@ theorem exec_commit4 (k : Nat) (env : Env) (henv : env.ctes = []) (b l : String)
       (acAbs (latestView s.w s.xid) rowsC').Perm
         (((am.map (·.2)).filter (fun d => !hasAccount l (acAbs (latestView s.w s.xid) rowsC) d.address)).map (insRow l) ++
           (acAbs (latestView s.w s.xid) rowsC).map (updOf l (am.map (·.2)))) ∧
-      AcInv (latestView s.w s.xid) (nrC + nC) rowsC' := by
-  obtain ⟨rsA', nrA', rowsM', seqs', s3, hrun3, hs3, hinvA, hav1, hav2, hmv1, hmv2, hmvInv, _, _⟩ :=
+      AcInv (latestView s.w s.xid) (nrC + nC) rowsC' ∧
+      seqs'.find? (·.name == mvSeqFull b) = some { sqM with last := sqM.next + pm.length - 1, called := true } ∧
+      seqs'.find? (·.name == fullT) = some { sqT with last := sqT.next, called := true } := by
+  obtain ⟨rsA', nrA', rowsM', seqs', s3, hrun3, hs3, hinvA, hav1, hav2, hmv1, hmv2, hmvInv, hsqM, hsqT⟩ :=
     exec_commit3 (k + 4) env b l id rsA nrA trigsT nrT rowsT fullT sqT trigsM B1 B2 trB A1 A2 trA item wher dflt_ fB setE whereU fA nrM rowsM sqM s
       hst vrows hvne hvnd av hwf habs L hl x hlit hid href pm hne hlits hsf hrange (by omega) T hT
   have hT3 : s3.w.table? (acFull b) = some ((acT b trigsC nrC).withRows rowsC) := by
@@ -118,9 +120,9 @@ theorem exec_commit4 (k : Nat) (env : Env) (henv : env.ctes = []) (b l : String)
           inv := by
             show AcInv (latestView s3.w s3.xid) nrC rowsC
             rw [hxid3, hlv3]; exact hac.inv
-          noUpdB := hac.noUpdB
-          noUpdA := hac.noUpdA }
+          noUpdB := hac.noUpdB }
       q0 := hq3
+      noUpdA := hac.noUpdA
       noInsB := hac.noInsB
       noInsA := hac.noInsA }
   obtain ⟨resA, rowsC', nC, hrun4, hperm4, hinv4⟩ := upsertAccounts_sem k env b l id trigsC nrC rowsC s3.enter hUS henv am
@@ -137,7 +139,7 @@ theorem exec_commit4 (k : Nat) (env : Env) (henv : env.ctes = []) (b l : String)
   have hseq4 := exec_seqRun_single' (k + 19) env _ s3 _ resA hone
   rw [enter_withTable_withCid] at hseq4
   have hall := exec_seqRun_append (k + 19) env _ _ _ _ _ _ _ hrun3 hseq4
-  refine ⟨rsA', nrA', rowsM', seqs', rowsC', nC, resA, (s3.bump 1).withTable ((acT b trigsC (nrC + nC)).withRows rowsC'), ?_, ?_, hinvA, hav1, hav2, hmv1, hmv2, hmvInv, hperm4, hinv4⟩
+  refine ⟨rsA', nrA', rowsM', seqs', rowsC', nC, resA, (s3.bump 1).withTable ((acT b trigsC (nrC + nC)).withRows rowsC'), ?_, ?_, hinvA, hav1, hav2, hmv1, hmv2, hmvInv, hperm4, hinv4, hsqM, hsqT⟩
   · simpa [List.append_assoc] using hall
   · rw [hs3]
     simp only [St.bump, St.withSeqs, St.withTable]
